@@ -1,3 +1,261 @@
-/- C01 property theorems (not written yet) -/
+/-
+C01 — multipart decoding does not depend on how the body is chunked.
+Property theorems only (helper lemmas live in Lemmas/Multipart.lean).
+
+Model: Model/Multipart.lean (`MultipartDecoder`, `MultiPartParser.parse`). `step`/`nextEvent` in the
+states DATA and DATA_START are, by definition, `dataStep` (one `_parse_data` call); `dataLoop` is the
+`next_event` loop while the decoder stays in those states and `dataPhase` runs it over a list of
+chunks. `dataSpec` is the reference (single-shot) semantics: payload = what precedes the leftmost
+match of `boundary_re` in the whole remaining stream.
+-/
+import WzVerif.Lemmas.Multipart
 namespace Wz.Props.C01
+open Wz Wz.Multipart
+
+/-! ### the model is of the regexes the class compiles -/
+
+/-- The five patterns compiled by `werkzeug.sansio.multipart` (for boundary `B`), their flags and
+`SEARCH_EXTRA_LENGTH` are exactly the ones the hand-written matchers `searchDelim`, `searchBlank`,
+`lbLen`, `foldContinuations` were written for (regenerated from the live module on every run). -/
+theorem regex_sources_as_modelled :
+    Gen.Multipart.preamblePattern =
+      str "(?:\r\n|\n|\r)?--B(--[^\\S\\n\\r]*(?:\r\n|\n|\r)?|[^\\S\\n\\r]*(?:\r\n|\n|\r))" ∧
+    Gen.Multipart.boundaryPattern =
+      str "(?:\r\n|\n|\r)--B(--[^\\S\\n\\r]*(?:\r\n|\n|\r)?|[^\\S\\n\\r]*(?:\r\n|\n|\r))" ∧
+    Gen.Multipart.blankLinePattern = str "(?:\r\n\r\n|\r\r|\n\n)" ∧
+    Gen.Multipart.lineBreakPattern = str "(?:\r\n|\n|\r)" ∧
+    Gen.Multipart.headerContinuationPattern = str "(?:\r\n|\n|\r)[ \t]" ∧
+    Gen.Multipart.escapeVerbatim = true ∧
+    Gen.Multipart.patternFlags = [8, 8, 8, 8, 8] ∧
+    Gen.Multipart.searchExtraLength = 8 := by
+  decide +kernel
+
+/-- The horizontal-whitespace class `[^\S\n\r]` of the live compiled regexes is {TAB, VT, FF, SP} in
+all four places it occurs; in particular it contains neither CR, LF nor `-` (what every proof below
+uses). -/
+theorem hws_class :
+    Gen.Multipart.hwsConsistent = true ∧
+    ∀ n, n < 256 → isHws (UInt8.ofNat n) = (n == 9 || n == 11 || n == 12 || n == 32) := by
+  refine ⟨by decide, ?_⟩
+  decide +kernel
+
+/-! ### in DATA / DATA_START `next_event` is `dataStep` -/
+
+/-- In the states DATA and DATA_START the model of `next_event` is one `_parse_data` call
+(`dataStep`, wrapped into an event by `stepData`): the kernel theorems below are about the very
+function the decoder model executes. -/
+theorem step_data_is_dataStep (d : Decoder) :
+    (d.state = .data → step d = stepData d false) ∧
+    (d.state = .dataStart → step d = stepData d true) := by
+  constructor <;> intro h <;> simp [step, h]
+
+/-! ### P0: the hold-back kernel -/
+
+/-- **Hold-back safety** (`_parse_data`, no delimiter recognised). Whatever `_parse_data` releases is
+final: for every buffer `b` and every continuation `c`, the leftmost delimiter of `b ++ c` is the
+leftmost delimiter of (what was kept ++ c), moved by the released length. Covers both the
+`last_newline` hold-back and the "far from a partial boundary" shortcut. -/
+theorem parseData_hold_safe {bnd : Bytes} (hb : BoundaryOk bnd) (b : Bytes) {de di : Nat}
+    (h : dataCut bnd b = (de, di, none)) (c : Bytes) :
+    de = di ∧ di ≤ b.length ∧
+      searchDelim bnd false (b ++ c) = shift di (searchDelim bnd false (b.drop di ++ c)) := by
+  cases hs : searchDelim bnd false b with
+  | some v =>
+    rcases v with ⟨s, e, f⟩
+    rw [dataCut_of_search hs] at h; simp at h
+  | none =>
+    rcases dataCut_of_no_search hb hs with ⟨k, hk, hkle, _, hsafe⟩
+    rw [hk] at h
+    simp only [Prod.mk.injEq, and_true] at h
+    rcases h with ⟨rfl, rfl⟩
+    exact ⟨rfl, hkle, hsafe c⟩
+
+example : BoundaryOk (str "bound") ∧ dataCut (str "bound") (str "ab\r\n--bou") = (2, 2, none) := by
+  decide +kernel
+
+/-- **Decision stability.** A delimiter recognised in the buffer is the delimiter of every
+extension of the buffer: same payload end, same kind (part / closing); only the LF completing a
+trailing CR may still arrive. -/
+theorem parseData_decision_stable {bnd : Bytes} (hb : BoundaryOk bnd) (b : Bytes) {de di : Nat} {f : Bool}
+    (h : dataCut bnd b = (de, di, some f)) (c : Bytes) :
+    ∃ di', dataCut bnd (b ++ c) = (de, di', some f) ∧
+      (f = false → di' = di ∨ (di' = di + 1 ∧ b.length = di ∧ ∃ c', c = 10 :: c')) := by
+  cases hs : searchDelim bnd false b with
+  | none =>
+    rcases dataCut_of_no_search hb hs with ⟨k, hk, _⟩
+    rw [hk] at h; simp at h
+  | some v =>
+    rcases v with ⟨s, e, f'⟩
+    rw [dataCut_of_search hs] at h
+    simp only [Prod.mk.injEq, Option.some.injEq] at h
+    rcases h with ⟨rfl, rfl, rfl⟩
+    rcases searchDelim_append_stable hb hs c with ⟨e', he', hrel⟩
+    exact ⟨e', dataCut_of_search he', hrel⟩
+
+example : dataCut (str "bound") (str "ab\r\n--bound\r") = (2, 12, some false) := by decide +kernel
+
+/-- **parseData_split (every chunk list).** Start with buffer `buf` in state DATA (`start = false`)
+or DATA_START (`start = true`, the buffer then begins with the line break that ended the headers)
+and let the rest of the stream arrive as any list of chunks. If the single-shot semantics of the
+whole stream `buf ++ chunks.flatten` finds payload `P`, delimiter kind `f` and residual `R`, the
+chunked loop (`receive_data` / `next_event` until NEED_DATA, chunk after chunk) produces Data events
+whose concatenation is exactly `P`, decides `f`, and leaves `R` — or `LF :: R` when a chunk ended
+between the CR and LF that close a non-final delimiter line (the LF is then still to be consumed as
+an empty header line). -/
+theorem parseData_split {bnd : Bytes} (hb : BoundaryOk bnd) (start : Bool) (buf : Bytes)
+    (chunks : List Bytes) (hstart : start = true → 0 < lbLen buf) {P : Bytes} {f : Bool} {R : Bytes}
+    (h : dataSpec bnd start (buf ++ chunks.flatten) = some (P, f, R)) :
+    ∃ R', dataPhase bnd start buf [] chunks = .ok (P, some (f, R')) ∧
+      (f = false → R' = R ∨ R' = 10 :: R) := by
+  cases start with
+  | false => simpa using dataPhase_false_sound hb chunks buf [] P f R h
+  | true => simpa using dataPhase_true_sound hb chunks buf [] P f R (hstart rfl) h
+
+/-- non-vacuity: the F01a body's payload, arriving byte by byte after the header block (the closing
+delimiter is recognised before its CRLF arrives: the residual differs, it belongs to the epilogue) -/
+example :
+    dataSpec (str "bound") true (str "\r\nx\nyyy\r\n--bound--\r\n") = some (str "x\nyyy", true, []) ∧
+    (dataPhase (str "bound") true (str "\r") [] ((str "\nx\nyyy\r\n--bound--\r\n").map fun b => [b])).toOption =
+      some (str "x\nyyy", some (true, str "\r\n")) := by
+  decide +kernel
+
+/-- **No false delimiter.** If the whole stream contains no delimiter, no chunking makes the loop
+report one (it answers NEED_DATA at the end), and what it released is a prefix of the stream. -/
+theorem parseData_split_none {bnd : Bytes} (hb : BoundaryOk bnd) (start : Bool) (buf : Bytes)
+    (chunks : List Bytes) (hstart : start = true → 0 < lbLen buf)
+    (h : dataSpec bnd start (buf ++ chunks.flatten) = none) :
+    ∃ p, dataPhase bnd start buf [] chunks = .ok (p, none) := by
+  have hs : searchDelim bnd false (buf ++ chunks.flatten) = none := by
+    unfold dataSpec at h
+    cases hx : searchDelim bnd false (buf ++ chunks.flatten) with
+    | none => rfl
+    | some v => rcases v with ⟨s, e, f⟩; rw [hx] at h; simp at h
+  cases start with
+  | false =>
+    rcases dataPhase_false_none hb chunks buf [] hs with ⟨p, hp, _⟩
+    exact ⟨p, by simpa using hp⟩
+  | true =>
+    rcases dataPhase_true_none hb chunks buf [] (hstart rfl) hs with ⟨p, hp⟩
+    exact ⟨p, by simpa using hp⟩
+
+/-- single shot: the loop over the whole stream is the reference semantics -/
+theorem parseData_single {bnd : Bytes} (start : Bool) (S : Bytes)
+    (hstart : start = true → 0 < lbLen S) {P : Bytes} {f : Bool} {R : Bytes}
+    (h : dataSpec bnd start S = some (P, f, R)) :
+    dataPhase bnd start S [] [] = .ok (P, some (f, R)) := by
+  unfold dataSpec at h
+  cases hx : searchDelim bnd false S with
+  | none => rw [hx] at h; simp at h
+  | some w =>
+    rcases w with ⟨s, e, g⟩
+    rw [hx] at h
+    simp only [Option.some.injEq, Prod.mk.injEq] at h
+    rcases h with ⟨rfl, rfl, rfl⟩
+    cases start with
+    | false => simp [dataPhase, dataLoop_false_decides S.length [] hx]
+    | true => simp [dataPhase, dataLoop_true_decides S.length [] (hstart rfl) hx]
+
+/-- **parseData_split, 2-way form of the property text.** For every buffer `b` and continuation `c`:
+feeding `b`, draining, feeding `c`, draining gives the same concatenated payload and the same
+delimiter decision as feeding `b ++ c` at once, and the same residual up to the split-CRLF LF. -/
+theorem parseData_split_two {bnd : Bytes} (hb : BoundaryOk bnd) (start : Bool) (b c : Bytes)
+    (hstart : start = true → 0 < lbLen b) {P : Bytes} {f : Bool} {R : Bytes}
+    (h : dataPhase bnd start (b ++ c) [] [] = .ok (P, some (f, R))) :
+    ∃ R', dataPhase bnd start b [] [c] = .ok (P, some (f, R')) ∧ (f = false → R' = R ∨ R' = 10 :: R) := by
+  have hstart' : start = true → 0 < lbLen (b ++ c) := fun hs =>
+    Nat.lt_of_lt_of_le (hstart hs) (lbLen_append_ge b c)
+  cases hspec : dataSpec bnd start (b ++ c) with
+  | none =>
+    rcases parseData_split_none hb start (b ++ c) [] hstart' (by simpa using hspec) with ⟨p, hp⟩
+    rw [hp] at h; simp at h
+  | some v =>
+    rcases v with ⟨P', f', R0⟩
+    rw [parseData_single start (b ++ c) hstart' hspec] at h
+    simp only [Except.ok.injEq, Prod.mk.injEq, Option.some.injEq] at h
+    rcases h with ⟨rfl, rfl, rfl⟩
+    exact parseData_split hb start b [c] hstart (by simpa using hspec)
+
+example :
+    (dataPhase (str "bound") false (str "abc\r" ++ str "\n--bound\r\nrest") [] []).toOption =
+      some (str "abc", some (false, str "rest")) ∧
+    (dataPhase (str "bound") false (str "abc\r") [] [str "\n--bound\r\nrest"]).toOption =
+      some (str "abc", some (false, str "rest")) := by
+  decide +kernel
+
+/-! ### P0: the retained search position -/
+
+/-- **searchPos_irrelevant (PREAMBLE).** After `preamble_re` failed on buffer `b` the decoder keeps
+`_search_position = max(0, len(b) - len(boundary) - SEARCH_EXTRA_LENGTH)`. For every continuation
+`c`, searching `b ++ c` from that position finds the same first delimiter as searching from 0 —
+under the explicit bound `PadOk`: the first delimiter, if it is not the closing one, is at most
+`len(boundary) + SEARCH_EXTRA_LENGTH` bytes long (line breaks and transport padding included). -/
+theorem searchPos_irrelevant {bnd b c : Bytes} (hnone : searchDelim bnd true b = none)
+    (hpad : PadOk bnd (b ++ c)) :
+    searchDelimFrom bnd true (b.length - bnd.length - searchExtra) (b ++ c) =
+      searchDelimFrom bnd true 0 (b ++ c) := by
+  rw [searchPos_irrelevant_lemma hnone hpad, searchDelimFrom_eq_shift]; simp
+
+/-- non-vacuity: four bytes of padding on the first delimiter are within the bound -/
+example :
+    searchDelim (str "bound") true (str "--bound  ") = none ∧
+    PadOk (str "bound") (str "--bound  " ++ str "  \r\nContent-Disposition: x") := by
+  decide +kernel
+
+/-- **F01c: the bound is necessary.** `--bound` + 20 SP + CRLF, first chunk ending inside the
+padding: the search resumed at the retained position misses the delimiter that a search from 0
+finds. (Known finding: RFC 2046 transport padding on the first delimiter longer than the retained
+tail.) -/
+theorem searchPos_irrelevant_full_false :
+    ¬ (∀ bnd b c : Bytes, searchDelim bnd true b = none →
+        searchDelimFrom bnd true (b.length - bnd.length - searchExtra) (b ++ c) =
+          searchDelimFrom bnd true 0 (b ++ c)) := by
+  intro h
+  have := h (str "bound") (str "--bound             ") (str "       \r\n") (by decide +kernel)
+  revert this
+  decide +kernel
+
+/-- F01c at the level of the whole decoder model: the two-chunk decode of the finding's body yields
+no part, the single-shot decode yields the field. -/
+theorem decode_chunk_independent_full_false :
+    ¬ (∀ (bnd : Bytes) (chunks : List Bytes),
+        partsOf (decodeChunks bnd none none chunks).events =
+          partsOf (decodeChunks bnd none none [chunks.flatten]).events) := by
+  intro h
+  have := h (str "bound")
+    [str "--bound             ",
+     str "       \r\nContent-Disposition: form-data; name=\"a\"\r\n\r\nv\r\n--bound--\r\n"]
+  revert this
+  decide +kernel
+
+/-- **searchPos_irrelevant (PART).** The blank-line search resumed at
+`max(0, len(b) - SEARCH_EXTRA_LENGTH)` finds the same first blank line as a search from 0, for every
+buffer and continuation, unconditionally. -/
+theorem searchPos_irrelevant_blank {b c : Bytes} (hnone : searchBlank b = none) :
+    searchBlankFrom (b.length - searchExtra) (b ++ c) = searchBlankFrom 0 (b ++ c) := by
+  rw [searchPos_irrelevant_blank_lemma hnone, searchBlankFrom_eq_shift]; simp
+
+example : searchBlank (str "Content-Disposition: form-data; name=\"a\"\r\n\r") = none := by
+  decide +kernel
+
+/-
+OPEN (P1) — stated, not proved:
+
+-- OPEN: drain_split — for every decoder configuration reachable from `mkDecoder` and bytes c₁ c₂,
+--   feed c₁ ; drain ; feed c₂ ; drain  ≈  feed (c₁ ++ c₂) ; drain
+-- where ≈ is equality of `partsOf` and of the residual configuration up to (i) the split-CRLF LF of
+-- `parseData_split` and (ii) payload bytes already released vs still held back.
+
+-- OPEN: decode_chunk_independent — for every body that satisfies the decidable predicate
+-- `WellFormed bnd body` (rendered from the property's grammar; first delimiter within `PadOk`;
+-- header blocks not starting with LF / SP / TAB) and every list of chunks with
+-- `chunks.flatten = body`:
+--   partsOf (decodeChunks bnd none none chunks).events
+--     = partsOf (decodeChunks bnd none none [body]).events
+-- The unrestricted statement is false (`decode_chunk_independent_full_false`, finding F01c).
+-- Proved here: the DATA / DATA_START phase for every chunk list (`parseData_split`,
+-- `parseData_split_none`) and the two search-position lemmas for PREAMBLE / PART; missing: the glue
+-- over the phase changes (PREAMBLE -> PART -> DATA_START -> DATA -> PART …) and the PART-phase
+-- insensitivity to the split-CRLF LF.
+-/
+
 end Wz.Props.C01
